@@ -11,10 +11,13 @@ ALLOWED_AXIOMS = {"propext", "Classical.choice", "Quot.sound"}
 FORBIDDEN = re.compile(r"\b(sorry|admit|native_decide|bv_decide|implemented_by|unsafe)\b|^\s*axiom\s|maxHeartbeats\s+0\b", re.M)
 
 
-def _lock():
+def _lock(shared=False):
+    """Build-directory lock.  Writers (lake build, possibly after deleting .olean files for a clean rebuild; the axiom audit)
+    take it exclusively; readers that only load compiled files (the driver, leanchecker) take it shared, so that a clean rebuild
+    by a concurrent thorough run cannot delete files under them."""
     os.makedirs(os.path.join(paths.LEAN, ".lake"), exist_ok=True)
-    f = open(os.path.join(paths.LEAN, ".lake", "verif.lock"), "w")
-    fcntl.flock(f, fcntl.LOCK_EX)
+    f = open(os.path.join(paths.LEAN, ".lake", "verif.lock"), "a")
+    fcntl.flock(f, fcntl.LOCK_SH if shared else fcntl.LOCK_EX)
     return f
 
 
@@ -154,11 +157,20 @@ def audit_axioms(prop, props_mod, names, timeout=1200):
             pass
         for n in names:
             fh.write(f"#print axioms {n}\n")
-    lock = _lock()
-    try:
-        p = subprocess.run(["lake", "env", "lean", f], cwd=paths.LEAN, capture_output=True, text=True, timeout=timeout)
-    finally:
-        lock.close()
+    for attempt in range(2):
+        lock = _lock()
+        try:
+            p = subprocess.run(["lake", "env", "lean", f], cwd=paths.LEAN, capture_output=True, text=True, timeout=timeout)
+        finally:
+            lock.close()
+        if attempt == 0 and p.returncode != 0 and re.search(r"object file .* does not exist|unknown module prefix|could not find", p.stdout + p.stderr):
+            # another run's clean rebuild removed compiled files between our build and this audit: build again, audit again
+            try:
+                build([props_mod])
+            except Exception:
+                pass
+            continue
+        break
     try:
         # keep the last audit file under the stable name the evidence's checker_cmd refers to
         os.replace(f, os.path.join(d, f"{prop}.lean"))
@@ -180,7 +192,11 @@ def audit_axioms(prop, props_mod, names, timeout=1200):
 
 
 def leanchecker(mods, timeout=3000):
-    p = subprocess.run(["lake", "env", "leanchecker"] + list(mods), cwd=paths.LEAN, capture_output=True, text=True, timeout=timeout)
+    lock = _lock(shared=True)
+    try:
+        p = subprocess.run(["lake", "env", "leanchecker"] + list(mods), cwd=paths.LEAN, capture_output=True, text=True, timeout=timeout)
+    finally:
+        lock.close()
     return p.returncode == 0, (p.stdout + p.stderr)[-3000:]
 
 
@@ -192,11 +208,21 @@ def run_driver(prop, lines, timeout=1800):
     # `lake build` of another property cannot interfere; one retry for transient failures
     env = dict(os.environ)
     env["LEAN_PATH"] = os.path.join(paths.LEAN, ".lake", "build", "lib", "lean")
-    for attempt in range(2):
-        p = subprocess.run(["lean", "--run", stub], cwd=paths.LEAN, input=data, env=env,
-                           capture_output=True, text=True, timeout=timeout)
+    for attempt in range(3):
+        lock = _lock(shared=True)          # a concurrent clean rebuild must not delete the compiled model while the driver loads it
+        try:
+            p = subprocess.run(["lean", "--run", stub], cwd=paths.LEAN, input=data, env=env,
+                               capture_output=True, text=True, timeout=timeout)
+        finally:
+            lock.close()
         out = p.stdout.splitlines()
         if p.returncode == 0 and len(out) == len(lines):
             break
         time.sleep(1.0)
+        if attempt == 1:
+            # the compiled files may have been removed by another run's clean rebuild in between: bring them back, then a last try
+            try:
+                build([f"BiotiteModel.Driver.{prop}"])
+            except Exception:
+                pass
     return out, p.returncode, p.stderr[-3000:]
